@@ -284,26 +284,45 @@ class OpcodeTables:
             if name not in self.mod.assigns:
                 raise FactError('skoolkit/opcodes.py: table %s not found' % name)
             self.tables[fam] = Lit(repo, 'opcodes').ev(self.mod.assigns[name][-1])
-        self.fallback = {}
-        # KeyError fall-backs: except KeyError: return _defb(snapshot, addr - k, n)
-        for fname, fam in (('_after_ed', 'after_ED'), ('_after_dd', 'after_DD'), ('_after_ddcb', 'after_DDCB')):
-            fn = self.mod.func(fname)
-            size = None
-            for n in ast.walk(fn):
-                if isinstance(n, ast.ExceptHandler) and n.type is not None and ast.unparse(n.type) == 'KeyError':
-                    for r in ast.walk(n):
-                        if isinstance(r, ast.Return) and isinstance(r.value, ast.Call) and ast.unparse(r.value.func) == '_defb':
-                            a = r.value.args
-                            back = 0
-                            if isinstance(a[1], ast.BinOp) and isinstance(a[1].op, ast.Sub) and isinstance(a[1].right, ast.Constant):
-                                back = a[1].right.value
-                            if isinstance(a[2], ast.Constant):
-                                size = (a[2].value, back, r.lineno)
-            if size is None:
-                raise FactError('skoolkit/opcodes.py: KeyError fall-back of %s not recognised' % fname)
-            self.fallback[fam] = size
-        self.fallback['after_FD'] = self.fallback['after_DD']
-        self.fallback['after_FDCB'] = self.fallback['after_DDCB']
+        self.repo = repo
+        self._mf = None
+
+    PFX = {'ops': [], 'after_CB': [0xCB], 'after_ED': [0xED], 'after_DD': [0xDD], 'after_FD': [0xFD], 'after_DDCB': [0xDD, 0xCB, 0], 'after_FDCB': [0xFD, 0xCB, 0]}
+
+    def size(self, fam, b, address=32768):
+        """Size opcodes.py reports for the sequence (fam, b) placed at `address`: the per-prefix decoder function that
+        opcodes.decode dispatches to is folded on a model snapshot, so table hits, KeyError fall-backs (wherever they are
+        caught) and boundary truncation are all followed.  A KeyError that nothing catches propagates to the caller."""
+        from .pyfacts import ModFolder
+        if self._mf is None:
+            self._mf = ModFolder(self.repo, 'opcodes')
+        seq = self.PFX[fam] + [b]
+        mem = [0] * 65536
+        for i, x in enumerate(seq):
+            if address + i < 65536:
+                mem[address + i] = x
+        # the dispatch statements of opcodes.decode itself: the loop body up to the RST-handler / yield part
+        if getattr(self, '_dispatch', None) is None:
+            fn = self.mod.func('decode')
+            loops = [n for n in fn.body if isinstance(n, ast.While)]
+            if len(loops) != 1:
+                raise FactError('skoolkit/opcodes.py: decode() loop not recognised')
+            body = []
+            for st in loops[0].body:
+                if any(isinstance(x, (ast.Yield, ast.YieldFrom)) or (isinstance(x, ast.Name) and x.id == 'rst_handler') for x in ast.walk(st)):
+                    break
+                body.append(st)
+            if not body:
+                raise FactError('skoolkit/opcodes.py: decode() dispatch not recognised')
+            self._dispatch = body
+        from .pyfacts import FuncFold
+        ff = FuncFold(self.repo, 'opcodes', {}, self._mf.hook())
+        ff.env = {'snapshot': mem, 'addr': address, 'start': address, 'end': 65536, 'rst_handler': None}
+        for st in self._dispatch:
+            ff.stmt(st)
+        if 'size' not in ff.env:
+            raise FactError('skoolkit/opcodes.py: decode() dispatch does not bind `size`')
+        return ff.env['size']
 
 class TimingTables:
     NAMES = {'ops': 'TIMINGS', 'after_CB': 'AFTER_CB_TIMINGS', 'after_ED': 'AFTER_ED_TIMINGS', 'after_DD': 'AFTER_DD_TIMINGS',
